@@ -17,7 +17,14 @@ THEOREMS = ["fasta_read_write", "fasta_rewrap_invariant", "fasta_file_lines", "f
             "shuffle_mono_permutation", "shuffle_windows_permutation", "shuffle_kmers_permutation", "shuffle_msa_columns_permutation", "shuffle_mono_counts", "shuffle_reproducible",
             "reformat_afa_shape", "reformat_no_option_identity", "reformat_upper_idempotent", "reformat_rna_then_dna",
             "reformat_roundtrip", "reformat_gap_columns", "alistat_counts", "translate_orf_header",
-            "sfetch_r_and_reversed_coords_cancel", "bootstrap_columns_from_input", "downsample_selects"]
+            "sfetch_r_and_reversed_coords_cancel", "bootstrap_columns_from_input", "downsample_selects",
+            # round 3: the alignment branch of esl-reformat = C03 readers/writers o C15 operations, with every option
+            "reformat_namelen_default_is_phylip", "reformat_namelen_roundtrip", "reformat_phylips_row_contiguous",
+            "reformat_msa_is_write_transform_read", "reformat_afa_idempotent", "reformat_phylip_to_afa",
+            "reformat_namelen_ignored_elsewhere", "reformat_convert_keeps_shape",
+            # round 3: esl-alimask / esl-alimanip = the tool's mask computation, then C15 ColumnSubset / SequenceSubset, then the C03 writer
+            "alimask_is_column_subset", "alimask_truncate_is_slice", "alimanip_seq_subset_keeps_rows", "alimanip_seq_list_is_subset",
+            "alimanip_reorder_attached"]
 
 SQFORMATS = ["fasta", "embl", "genbank", "uniprot", "ddbj", "daemon", "hmmpgmd", "ncbi", "fmindex"]
 MSAFORMATS = ["stockholm", "pfam", "a2m", "afa", "psiblast", "clustal", "clustallike", "selex", "phylip", "phylips"]
@@ -1308,6 +1315,530 @@ def ref_alimanip(rng, i):
     return {"name": "ref-alimanip-%d" % i, "ref": True, "nopred_ok": True, "sticky": 1, "roundtrip": want, "ops": ops}
 
 
+
+# ---------------------------------------------------------------------------------------------------------------
+# option sweep: for every reference-modelled tool, every option of its ESL_OPTIONS table (parsed from the working tree)
+# that the reference function can express is exercised ALONE and in PAIRS, on inputs of the shape where it matters
+# ---------------------------------------------------------------------------------------------------------------
+def show_op(op):
+    kv = dict(w.split("=", 1) for w in op.split()[1:] if "=" in w)
+    if op.startswith("run "):
+        a = kv.get("args", "-")
+        argv = bytes.fromhex(a).decode("latin-1").split("\0") if a != "-" else []
+        return "%s %s" % (kv.get("tool"), " ".join(argv))
+    return op[:120]
+
+
+def wide_rows(rng, abc=None, nseq=None, alen=None, longnames=True, gaps="-"):
+    """alignment rows of the shape where layout options matter: wider than one output block (60 columns for
+    PHYLIP/Clustal/SELEX/afa, 200 for Stockholm), several sequences, names longer than the default name widths"""
+    abc = abc or rng.choice([DNA, "ACGU", AMINO])
+    nseq = nseq or rng.choice([2, 3, 4, 6])
+    alen = alen or rng.choice([7, 59, 60, 61, 75, 119, 120, 121, 130, 199, 200, 201, 260, 405])
+    rows, _ = gen_msa(rng, abc=abc, nseq=nseq, alen=alen, gapfrac=rng.choice([0.0, 0.1, 0.3]))
+    names = []
+    for k in range(nseq):
+        w = rng.random()
+        if longnames and w < 0.35:
+            nm = "%s_%d" % (rng.choice(["a_rather_long_sequence_name", "third.seq/1-80", "seq_two_long", "Q9XYZ1_HUMAN/12-345"]), k + 1)
+        elif w < 0.6:
+            nm = "%s%d" % (rng.choice(["seq", "tRNA", "x_"]), k + 1)
+        else:
+            nm = "%s%d" % (rng.choice(["s", "Q"]), k + 1)
+        names.append(nm)
+    out = []
+    for (n, s_), nm in zip(rows, names):
+        if len(gaps) > 1:
+            s_ = "".join(rng.choice(gaps) if c == "-" and rng.random() < 0.3 else c for c in s_)
+        out.append((nm, s_))
+    return out, abc
+
+
+def balanced_ss(rng, alen, kh=False):
+    """a nested structure line in WUSS (<>, (), [], {} with . : , _ - ~ unpaired) or in the old KH notation (> < .)"""
+    ss = ["."] * alen
+    i, j = 0, alen - 1
+    opens = "<([{" if not kh else ">"
+    closes = {"<": ">", "(": ")", "[": "]", "{": "}", ">": "<"}
+    while i + 1 < j:
+        w = rng.random()
+        if w < 0.45:
+            o = rng.choice(opens); ss[i] = o; ss[j] = closes[o]; i += 1; j -= 1
+        elif w < 0.7: i += 1
+        elif w < 0.95: j -= 1
+        else: break
+    if not kh:
+        ss = [rng.choice(".:,_-~") if c == "." and rng.random() < 0.3 else c for c in ss]
+    return "".join(ss)
+
+
+def sto_text_blocks(rows, cpl, rf=None, sscons=None, grss=None, desc=None, ident=None):
+    """Stockholm text in blocks of <cpl> columns (cpl >= alen: one block, i.e. Pfam)"""
+    alen = len(rows[0][1])
+    w = max([len(n) for n, _ in rows] + [12]) + 2
+    out = ["# STOCKHOLM 1.0"]
+    if ident: out.append("#=GF ID " + ident)
+    for k, d in (desc or {}).items():
+        out.append("#=GS %s DE %s" % (rows[k][0], d))
+    out.append("")
+    for pos in range(0, alen, cpl):
+        if pos: out.append("")
+        for k, (n, s_) in enumerate(rows):
+            out.append(n.ljust(w) + " " + s_[pos:pos + cpl])
+            if grss and k in grss:
+                out.append(("#=GR %s SS" % n).ljust(w) + " " + grss[k][pos:pos + cpl])
+        if sscons: out.append("#=GC SS_cons".ljust(w) + " " + sscons[pos:pos + cpl])
+        if rf: out.append("#=GC RF".ljust(w) + " " + rf[pos:pos + cpl])
+    out.append("//")
+    return "\n".join(out) + "\n"
+
+
+def sweep_input_msa(rng, want_ss=None, want_rf=None, via_ok=True, kh=False, abc=None, alen=None):
+    """-> (ops creating the input file 'in.x', informat, info) : aligned FASTA, Stockholm in 200- or other-width blocks, Pfam,
+    or (via) any other alignment format produced from aligned FASTA by the tool itself (that run is predicted too)"""
+    w = rng.random()
+    rows, abc = wide_rows(rng, abc=abc, alen=alen, gaps=rng.choice(["-", "-", "-.", "-._", "-.~"]))
+    if rng.random() < 0.3:
+        rows = [(n, "".join(c.lower() if rng.random() < 0.2 else c for c in s_)) for n, s_ in rows]
+    alen = len(rows[0][1])
+    info = {"rows": rows, "abc": abc}
+    need_sto = want_ss or want_rf
+    if need_sto or w < 0.4:
+        rf = None
+        if want_rf or (want_rf is None and rng.random() < 0.4):
+            rf = "".join("x" if rng.random() < 0.7 else "." for _ in range(alen))
+            if "x" not in rf: rf = "x" + rf[1:]
+        sscons = balanced_ss(rng, alen, kh) if (want_ss or (want_ss is None and rng.random() < 0.3)) else None
+        grss = {0: balanced_ss(rng, alen, kh)} if (sscons and rng.random() < 0.4) else None
+        desc = {0: "a description"} if rng.random() < 0.3 else None
+        cpl = rng.choice([alen, alen, 200, 200, 50, 77])
+        text = sto_text_blocks(rows, max(1, cpl), rf=rf, sscons=sscons, grss=grss, desc=desc, ident=rng.choice([None, "aln1"]))
+        info.update(rf=rf, sscons=sscons)
+        return [op_file("in.x", text)], ("pfam" if cpl >= alen and rng.random() < 0.5 else "stockholm"), info
+    if w < 0.7 or not via_ok:
+        recs = [(n, rng.choice(["", "", "desc here"]), s_) for n, s_ in rows]
+        return [op_file("in.x", ref_fasta_text(rng, recs))], "afa", info
+    fmt = rng.choice(["clustal", "clustallike", "phylip", "phylips", "selex", "psiblast", "a2m", "stockholm", "pfam"])
+    if fmt in ("phylip", "phylips"):       # strict PHYLIP input: the reader takes exactly ten name columns
+        rows = [(n[:10].ljust(1, "x"), s_) for n, s_ in rows]
+        if len(set(n for n, _ in rows)) < len(rows):
+            rows = [("n%d" % (k + 1), s_) for k, (n, s_) in enumerate(rows)]
+        info["rows"] = rows
+    return [op_file("in.afa", afa_text(rows)), op_run("esl-reformat", ["--informat", "afa", fmt, "in.afa"]), "save name=in.x"], fmt, info
+
+
+def _opt_words(name, val):
+    return [name] if val is None else [name, val]
+
+
+class Sweep:
+    """tool: entry point; values: {option: fn(rng) -> value | None (flag)} = what the reference function can express;
+    skip: {option: reason} = in the table but not expressible (listed in the evidence);
+    build(rng, opts) -> case (opts = [(name, value)]); shapes: how many inputs per single option"""
+    def __init__(self, tool, values, skip, build, singles=3, pair_reps=1, always=(), no_pair=()):
+        self.tool, self.values, self.skip, self.build, self.singles, self.pair_reps, self.always = tool, values, skip, build, singles, pair_reps, always
+        self.no_pair = set(frozenset(x) for x in no_pair)       # pairs the table allows but the reference does not define
+
+
+def _table_opts(ctx, tool):
+    return {o["name"]: o for o in ctx.c13_tables[tool]["options"]}
+
+
+def _conflict(tab, names):
+    """the table forbids this combination (incompatible options / missing required option) -> the tool must reject it"""
+    on = set(names)
+    for n in names:
+        o = tab.get(n)
+        if not o: continue
+        for x in (o.get("incomp") or "").split(","):
+            if x.strip() and x.strip() in on and x.strip() != n: return True
+        for x in (o.get("reqs") or "").split(","):
+            x = x.strip()
+            if x and x not in on and (tab.get(x) or {}).get("default") in (None, "FALSE", "NULL", "0"):
+                return True          # a required option that is neither given nor on by default
+    return False
+
+
+def sweep_tool(ctx, sw):
+    rng = ctx.rng
+    tab = _table_opts(ctx, sw.tool)
+    names = [n for n in tab if n in sw.values]
+    unknown = [n for n in tab if n not in sw.values and n not in sw.skip and n not in ("-h", "--help", "--stall", "--version", "--devhelp")]
+    st = ctx.c13_stats.setdefault("sweep", {}).setdefault(sw.tool, {})
+    st.update(options_in_table=len(tab), expressible=sorted(names), not_expressible={k: v for k, v in sw.skip.items() if k in tab},
+              not_classified=unknown, singles=0, pairs=0, rejected_pairs=0)
+    out = []
+
+    def mk(opts, tag):
+        c = sw.build(rng, opts)
+        if c is None: return
+        on = c.pop("on", None) or ([n for n, _ in opts] + list(sw.always))
+        c["name"] = "sweep-%s-%s-%d" % (sw.tool.replace(" ", "_"), tag, len(out))
+        c["ref"] = True
+        c.setdefault("sticky", len(c["ops"]))
+        if _conflict(tab, on):
+            c["expect_err"] = True; c["nopred_ok"] = True; c["may_fail"] = True
+            st["rejected_pairs"] += 1
+        out.append(c)
+
+    mk([], "none")
+    for n in names:
+        for _ in range(sw.singles):
+            mk([(n, sw.values[n](rng))], "1" + n.lstrip("-")); st["singles"] += 1
+    for i in range(len(names)):
+        for j in range(i + 1, len(names)):
+            ta, tb = tab[names[i]].get("toggles"), tab[names[j]].get("toggles")
+            if (ta and tb and ta == tb) or frozenset((names[i], names[j])) in sw.no_pair:
+                st["pairs_left_out"] = st.get("pairs_left_out", 0) + 1       # same toggle group (C14's subject) / undefined by the reference
+                continue
+            for _ in range(sw.pair_reps):
+                a, b = names[i], names[j]
+                if rng.random() < 0.5: a, b = b, a
+                mk([(a, sw.values[a](rng)), (b, sw.values[b](rng))], "2" + a.lstrip("-") + "+" + b.lstrip("-")); st["pairs"] += 1
+    return out
+
+
+# ---- esl-reformat ---------------------------------------------------------------------------------------------
+def _reformat_build(rng, opts):
+    on = dict(opts)
+    wuss = [n for n in ("--wussify", "--dewuss", "--fullwuss") if n in on]
+    want_ss = True if wuss else None
+    want_rf = True if "--keeprf" in on else None
+    outfmt = on.pop("<outfmt>", None) or rng.choice(MSAFORMATS)
+    alen = on.pop("<alen>", None)
+    if "--namelen" in on and rng.random() < 0.7 and outfmt not in ("phylip", "phylips"):
+        outfmt = rng.choice(["phylip", "phylips"])
+    ops, infmt, info = sweep_input_msa(rng, want_ss=want_ss, want_rf=want_rf, kh=("--wussify" in on), alen=alen)
+    args = []
+    for n, v in opts:
+        if n.startswith("<"): continue
+        args += _opt_words(n, v)
+    args += ["--informat", infmt, outfmt, "in.x"]
+    c = {"ops": ops + [op_run("esl-reformat", args)], "sticky": len(ops)}
+    if "--wussify" in on and ("--mingap" in on or "--nogap" in on):
+        # old-notation structure lines are not WUSS: the base-pair repair of the column removal refuses them (exit 1 + message)
+        c["may_fail"] = True; c["nopred_ok"] = True
+    if rng.random() < 0.1:
+        c["ops"][-1] = op_run("esl-reformat", ["-o", "out.txt"] + args); c["ops"].append("cat name=out.txt")
+    return c
+
+
+REFORMAT_SWEEP = Sweep("esl-reformat",
+    values={"-d": lambda r: None, "-l": lambda r: None, "-n": lambda r: None, "-r": lambda r: None, "-u": lambda r: None, "-x": lambda r: None,
+            "--gapsym": lambda r: r.choice([".", "_", "x", "~", "*"]), "--mingap": lambda r: None, "--keeprf": lambda r: None, "--nogap": lambda r: None,
+            "--wussify": lambda r: None, "--dewuss": lambda r: None, "--fullwuss": lambda r: None,
+            "--rename": lambda r: r.choice(["new", "s", "x.y", "a_long_new_name"]),
+            "--replace": lambda r: r.choice(["A:x", "AC:ca", "acgt:ACGT", "N:n", "XYZ:NNN", ".:-", "_.:--"]),
+            "--namelen": lambda r: r.choice(["1", "5", "10", "10", "14", "25", "40"])},
+    skip={"-o": "exercised on a tenth of the cases (output file compared instead of stdout)", "--informat": "always given",
+          "--ignore": "alignment output: must be refused (corpus); unaligned output: input-map change of the sequence reader, not modelled",
+          "--acceptx": "as --ignore", "--small": "compared with the normal mode's output (ref_small), not with the model",
+          "--id_map": "hmmpgmd output only: map file compared by the python monitor (ref_hmmpgmd)"},
+    build=_reformat_build, singles=4, pair_reps=1)
+
+
+def reformat_grid_cases(ctx):
+    """all output formats x --namelen x alignment widths around one output block (PHYLIP 60, Stockholm 200)"""
+    rng = ctx.rng
+    out = []
+    for outfmt in MSAFORMATS:
+        for nl in ([None, "10", "7", "25"] if outfmt in ("phylip", "phylips") else [None, "12"]):
+            for alen in (60, 61, rng.choice([75, 120, 121, 150, 201, 260])):
+                opts = ([("--namelen", nl)] if nl else []) + [("<outfmt>", outfmt), ("<alen>", alen)]
+                c = _reformat_build(rng, opts)
+                c.update(name="sweep-esl-reformat-grid-%s-%s-%d" % (outfmt, nl, alen), ref=True)
+                out.append(c)
+    return out
+
+
+SWEEPS = [REFORMAT_SWEEP]
+
+
+
+# ---- the other reference-modelled tools ---------------------------------------------------------------------------
+def _flag(r): return None
+
+
+def _args_of(opts):
+    a = []
+    for n, v in opts:
+        a += _opt_words(n, v)
+    return a
+
+
+def _seqstat_build(rng, opts):
+    recs, abc = ref_records(rng, long_ok=True)
+    on = [n for n, _ in opts]
+    args = _args_of(opts)
+    if not any(x in on for x in ("--dna", "--rna", "--amino")): args.append(ABCFLAG[abc])
+    elif ABCFLAG[abc] not in on: return None
+    return {"ops": [op_file("in.fa", ref_fasta_text(rng, recs, crlf_ok=True)), op_run("esl-seqstat", args + ["in.fa"])]}
+
+
+def _abc_values(abcs=("--dna", "--rna", "--amino")):
+    return {a: _flag for a in abcs}
+
+
+SEQSTAT_SWEEP = Sweep("esl-seqstat", values={"-a": _flag, "-c": _flag, "--comptbl": _flag, "--informat": lambda r: "fasta", "--dna": _flag, "--rna": _flag, "--amino": _flag},
+                      skip={}, build=_seqstat_build, singles=2)
+
+
+def _ali_build(tool, abcs=(DNA, "ACGU", AMINO), fixed=()):
+    def build(rng, opts):
+        rows, abc = ref_msa_rows(rng, rng.choice(abcs))
+        if rng.random() < 0.3: rows = [(n, d, s_ * 3) for n, d, s_ in rows]
+        on = [n for n, _ in opts]
+        flags = [x for x in ("--dna", "--rna", "--amino") if x in on]
+        if flags and flags != [ABCFLAG[abc]]:
+            if len(flags) > 1: pass                      # two alphabets: the table forbids it, the tool must refuse
+            else: return None
+        args = _args_of(opts)
+        if not flags: args.append(ABCFLAG[abc])
+        if "--informat" not in on: args += ["--informat", "afa"]
+        c = {"ops": [op_file("in.afa", ref_fasta_text(rng, rows)), op_run(tool, list(fixed) + args + ["in.afa"])]}
+        if len(flags) > 1: c.update(nopred_ok=True, may_fail=True)     # two alphabet flags: refused or resolved by the tool's own rule
+        return c
+    return build
+
+
+ALIPID_SWEEP = Sweep("esl-alipid", values=dict({"--noheader": _flag, "--informat": lambda r: "afa"}, **_abc_values()),
+                     skip={"--outformat": "declared in the table, never read by the tool"}, build=_ali_build("esl-alipid"), singles=2)
+ALIREV_SWEEP = Sweep("esl-alirev", values=dict({"--informat": lambda r: "afa", "--outformat": lambda r: "afa"}, **_abc_values(("--dna", "--rna"))),
+                     skip={}, build=_ali_build("esl-alirev", abcs=(DNA, "ACGU")), singles=2)
+ALISTAT_SWEEP = Sweep("esl-alistat", values=dict({"-1": _flag, "--informat": lambda r: "afa"}, **_abc_values()),
+                      skip={k: "per-column/per-sequence report written to a file: recomputed by the python monitor (ref_alistat_info)" for k in
+                            ("--list", "--icinfo", "--rinfo", "--pcinfo", "--psinfo", "--iinfo", "--cinfo", "--bpinfo")} |
+                           {"--small": "Pfam input only; same numbers (search)", "--noambig": "modifies --cinfo (monitor)", "--weight": "needs #=GS WT (search)"},
+                      build=_ali_build("esl-alistat"), singles=2)
+
+
+def _weight_build(rng, opts):
+    c = _ali_build("esl-weight")(rng, opts)
+    return c
+
+
+WEIGHT_SWEEP = Sweep("esl-weight", values=dict({"-g": _flag, "-p": _flag, "-b": _flag, "-f": _flag, "--informat": lambda r: "afa",
+                                                 "--id": lambda r: r.choice(["0.62", "0.5", "0.9", "1.0", "0.25", "0"]),
+                                                 "--idf": lambda r: r.choice(["0.8", "0.5", "0.9", "1.0", "0.25"])}, **_abc_values()),
+                     skip={"-o": "exercised by ref_weight (output file compared)"}, build=_weight_build, singles=2)
+
+
+def _translate_build(rng, opts):
+    c = ref_translate(rng, 0)
+    run = c["ops"][-1]
+    args = _args_of(opts)
+    if "--informat" not in [n for n, _ in opts]: args += ["--informat", "fasta"]
+    c["ops"][-1] = op_run("esl-translate", args + ["in.fa"])
+    return {"ops": c["ops"]}
+
+
+TRANSLATE_SWEEP = Sweep("esl-translate", values={"-c": lambda r: str(r.choice([1, 2, 3, 4, 5, 6, 9, 10, 11, 12, 13, 14, 16, 21, 22, 23, 24, 25])),
+                                                 "-l": lambda r: str(r.choice([0, 1, 2, 5, 10, 20, 50])), "-m": _flag, "-M": _flag, "-W": _flag,
+                                                 "--informat": lambda r: "fasta", "--watson": _flag, "--crick": _flag},
+                        skip={}, build=_translate_build, singles=3, no_pair=[("--watson", "--crick")])
+
+
+def _mask_build(rng, opts):
+    on = dict(opts)
+    recs, abc = ref_records(rng, maxlen=130, long_ok=True)
+    mlines = []
+    for n, d, s_ in recs[:rng.randrange(1, len(recs) + 1)]:
+        L = len(s_)
+        a = rng.choice([1, 2, L, L + 1, 0, -2, rng.randrange(1, L + 1), rng.randrange(-5, L + 10)])
+        b = rng.choice([L, L - 1, 1, 0, L + 5, rng.randrange(1, L + 1), rng.randrange(-5, L + 10), a, a - 1])
+        mlines.append("%s %d %d" % (n, a, b))
+    args = _args_of(opts)
+    if "--informat" not in on: args += ["--informat", "fasta"]
+    ops = [op_file("in.fa", fasta_text(recs, rng.choice([60, 50, 11])) if "-R" in on else ref_fasta_text(rng, recs)), op_file("mask", "\n".join(mlines) + "\n")]
+    if "-R" in on: ops.append(op_run("esl-sfetch", ["--index", "in.fa"]))
+    return {"ops": ops + [op_run("esl-mask", args + ["in.fa", "mask"])]}
+
+
+MASK_SWEEP = Sweep("esl-mask", values={"-r": _flag, "-R": _flag, "-l": _flag, "-m": lambda r: r.choice(["N", "x", "*", "Q"]),
+                                       "-x": lambda r: str(r.choice([0, 1, 2, 5, 1000])), "--informat": lambda r: "fasta"},
+                   skip={"-o": "exercised by ref_mask (output file compared)"}, build=_mask_build, singles=3)
+
+
+def _shuffle_build(rng, opts):
+    on = dict(opts)
+    args = _args_of(opts)
+    if "--seed" not in on: args += ["--seed", ref_seed(rng)]
+    if "-G" in on:
+        if "-L" not in on: args += ["-L", str(rng.choice([1, 59, 60, 61, 150]))]
+        if not any(x in on for x in ("--dna", "--rna")): args.append(rng.choice(["--dna", "--rna"]))
+        return {"ops": [op_run("esl-shuffle", args)], "on": list(on) + ["-L"]}
+    if "-A" in on or "-b" in on:
+        abc = rng.choice([DNA, "ACGU"])
+        rows, _ = gen_msa(rng, abc=abc, nseq=rng.choice([3, 4, 6]), alen=rng.choice([30, 59, 60, 61, 100, 130]), gapfrac=rng.choice([0.0, 0.1, 0.2]))
+        rows = [(n, "", s_) for n, s_ in rows]
+        return {"ops": [op_file("in.afa", ref_fasta_text(rng, rows)), op_run("esl-shuffle", args + ["--informat", "afa", "in.afa"])]}
+    recs, abc = ref_records(rng, maxlen=160, long_ok=True)
+    if "--informat" not in on: args += ["--informat", "fasta"]
+    return {"ops": [op_file("in.fa", ref_fasta_text(rng, recs, crlf_ok=True)), op_run("esl-shuffle", args + ["in.fa"])]}
+
+
+SHUFFLE_SWEEP = Sweep("esl-shuffle", values={"-N": lambda r: str(r.choice([1, 2, 3, 5])), "-L": lambda r: str(r.choice([1, 2, 5, 10, 60, 100])),
+                                             "-m": _flag, "-k": lambda r: str(r.choice([1, 2, 3, 7, 100])), "-r": _flag, "-w": lambda r: str(r.choice([1, 2, 10, 60, 1000])),
+                                             "-b": _flag, "-A": _flag, "-G": _flag, "--seed": lambda r: ref_seed(r), "--informat": lambda r: "fasta"},
+                      skip={"-d": "dinucleotide-preserving shuffle (C18 owns the model; not wired into the reference)", "-0": "as -d", "-1": "as -d",
+                            "-v": "as -d", "-S": "as -d", "--amino": "-G with 20 letters: not wired", "--dna": "given with -G", "--rna": "given with -G",
+                            "-o": "exercised by ref_shuffle (output file compared)"},
+                      build=_shuffle_build, singles=2,
+                      no_pair=[("-A", x) for x in ("-m", "-k", "-r", "-w", "-L", "--informat")] + [("-G", x) for x in ("-m", "-k", "-r", "-w", "-A", "-b", "--informat")]
+                              + [("-b", x) for x in ("-m", "-k", "-r", "-w", "-L", "--informat", "-G")])
+
+SWEEPS += [SEQSTAT_SWEEP, ALIPID_SWEEP, ALIREV_SWEEP, ALISTAT_SWEEP, WEIGHT_SWEEP, TRANSLATE_SWEEP, MASK_SWEEP, SHUFFLE_SWEEP]
+
+
+# ---- esl-alimask ----------------------------------------------------------------------------------------------
+def _alimask_build(rng, opts):
+    on = dict(opts)
+    have = set(on)
+    if have & {"-t", "--t-rf", "--t-rmins"}: mode = "t"
+    elif "--rf-is-mask" in have: mode = "rf"
+    elif have & {"-g", "--gapthresh", "--gmask-rf", "--gmask-all", "--keepins"}: mode = "g"
+    else: mode = rng.choice(["file", "file", "t", "g", "rf"])
+    extra = []
+    if mode == "t" and "-t" not in have: extra.append(("-t", None))
+    if mode == "g" and "-g" not in have: extra.append(("-g", None))
+    if mode == "rf" and "--rf-is-mask" not in have: extra.append(("--rf-is-mask", None))
+    if "-q" in have and "-o" not in have: extra.append(("-o", "out.ali"))
+    opts = extra + list(opts)
+    on = dict(opts)
+    need_rf = mode == "rf" or bool(set(on) & {"--t-rf", "--t-rmins", "--keepins", "--fmask-rf", "--gmask-rf"})
+    abcflag = next((x for x in ("--dna", "--rna", "--amino") if x in on), None)
+    abc = {"--dna": DNA, "--rna": "ACGU", "--amino": AMINO}.get(abcflag) or rng.choice(["ACGU", "ACGU", DNA, AMINO])
+    rows, _ = wide_rows(rng, abc=abc, alen=rng.choice([7, 33, 60, 61, 130, 201, 230]), gaps=rng.choice(["-", "-.", "-."]))
+    alen = len(rows[0][1])
+    rf = None
+    if need_rf or rng.random() < 0.5:
+        rf = "".join(rng.choice("xxxxxXAa") if rng.random() < 0.7 else rng.choice("..-") for _ in range(alen))
+        if all(c in ".-" for c in rf): rf = "x" + rf[1:]
+    sscons = balanced_ss(rng, alen) if rng.random() < 0.6 else None
+    grss = {0: balanced_ss(rng, alen)} if (sscons and rng.random() < 0.3) else None
+    cpl = rng.choice([alen, 200, 50])
+    text = sto_text_blocks(rows, cpl, rf=rf, sscons=sscons, grss=grss, ident=rng.choice([None, "aln1"]))
+    ops = [op_file("in.sto", text)]
+    args = []
+    for n, v in opts:
+        args += _opt_words(n, v)
+    if "--informat" not in on: args += ["--informat", "stockholm"]
+    pos = ["in.sto"]
+    if mode == "file" and not (set(on) & {"-g", "--rf-is-mask", "-t"}):
+        rflen = sum(1 for c in (rf or "") if c not in ".-_~*")
+        mlen = rflen if (rf and rng.random() < 0.5) else alen
+        mk_ = "".join(rng.choice("01") for _ in range(mlen))
+        if "1" not in mk_: mk_ = "1" + mk_[1:]
+        if rng.random() < 0.3: mk_ = "# a comment\n" + mk_[:mlen // 2] + "\n" + mk_[mlen // 2:]
+        ops.append(op_file("maskfile", mk_ + "\n")); pos.append("maskfile")
+    elif mode == "t":
+        lim = sum(1 for c in rf if c not in ".-_~*") if (rf and "--t-rf" in on) else alen
+        a = rng.randrange(1, lim + 1); b = rng.randrange(a, lim + 1)
+        pos.append(rng.choice(["%d-%d" % (a, b), "%d..%d" % (a, b), "%d:" % a, "%d/%d" % (a, b)]))
+    c = {"ops": ops + [op_run("esl-alimask", args + pos)], "on": list(on)}
+    for k in ("-o", "--fmask-rf", "--fmask-all", "--gmask-rf", "--gmask-all"):
+        if k in on: c["ops"].append("cat name=" + on[k])
+    if ("--keepins" in on and mode != "g") or ("--amino" in on and abc != AMINO):
+        c.update(may_fail=True, nopred_ok=True)
+    return c
+
+
+ALIMASK_SWEEP = Sweep("esl-alimask",
+    values={"-t": _flag, "-g": _flag, "--rf-is-mask": _flag, "--t-rf": _flag, "--t-rmins": _flag, "--keepins": _flag, "-q": _flag,
+            "--dna": _flag, "--rna": _flag, "--amino": _flag,
+            "--gapthresh": lambda r: r.choice(["0.5", "0.0", "1.0", "0.25", "0.34", "0.75", "0.6"]),
+            "--informat": lambda r: "stockholm", "--outformat": lambda r: r.choice(["stockholm", "pfam", "afa", "clustal", "selex", "phylip", "a2m", "psiblast"]),
+            "-o": lambda r: "out.ali", "--fmask-rf": lambda r: "fm_rf.txt", "--fmask-all": lambda r: "fm_all.txt",
+            "--gmask-rf": lambda r: "gm_rf.txt", "--gmask-all": lambda r: "gm_all.txt"},
+    skip={k: "posterior-probability masks (-p): not modelled; search + ref_alimask monitor" for k in
+          ("-p", "--pfract", "--pthresh", "--pavg", "--ppcons", "--pallgapok", "--pmask-rf", "--pmask-all")} | {"--small": "compared with the normal mode (ref_small)"},
+    build=_alimask_build, singles=3)
+
+SWEEPS += [ALIMASK_SWEEP]
+
+
+# ---- esl-alimanip ---------------------------------------------------------------------------------------------
+ROWFILTERS = {"--lnfract", "--lxfract", "--lmin", "--lmax", "--rffract", "--detrunc", "--xambig", "--seq-k", "--seq-r", "--reorder"}
+
+
+def _alimanip_build(rng, opts):
+    on = dict(opts)
+    abcflag = next((x for x in ("--dna", "--rna", "--amino") if x in on), None)
+    abc = {"--dna": DNA, "--rna": "ACGU", "--amino": AMINO}.get(abcflag) or rng.choice(["ACGU", DNA, AMINO])
+    rows, _ = wide_rows(rng, abc=abc, nseq=rng.choice([2, 3, 5, 8]), alen=rng.choice([7, 33, 61, 130, 201, 230]))
+    deg = {DNA: "RYMKSWHBVDN", "ACGU": "RYMKSWHBVDN", AMINO: "BJZOUX"}[abc]
+    rows = [(n, "".join(rng.choice(deg) if (c != "-" and rng.random() < 0.02) else c for c in s_)) for n, s_ in rows]
+    if rng.random() < 0.5:      # truncated sequences: leading / trailing gaps
+        k = rng.randrange(len(rows)); n, s_ = rows[k]; cut = rng.randrange(1, max(2, len(s_) // 2))
+        rows[k] = (n, "-" * cut + s_[cut:]) if rng.random() < 0.5 else (n, s_[:-cut] + "-" * cut)
+        if not rows[k][1].replace("-", ""): rows[k] = (n, s_)
+    alen = len(rows[0][1])
+    need_rf = bool(set(on) & {"--rffract", "--detrunc", "--num-rf"}) or on.get("--rm-gc") == "RF"
+    rf = None
+    if need_rf or rng.random() < 0.5:
+        rf = "".join("x" if rng.random() < 0.7 else "." for _ in range(alen))
+        if "x" not in rf: rf = "x" + rf[1:]
+    sscons = balanced_ss(rng, alen) if (on.get("--rm-gc") == "SS_cons" or rng.random() < 0.4) else None
+    grss = {0: balanced_ss(rng, alen)} if (sscons and rng.random() < 0.3) else None
+    desc = {len(rows) - 1: "a description"} if rng.random() < 0.3 else None
+    text = sto_text_blocks(rows, rng.choice([alen, 200, 50]), rf=rf, sscons=sscons, grss=grss, desc=desc, ident=rng.choice([None, "aln1"]))
+    ops = [op_file("in.sto", text)]
+    lens = sorted(len(s_.replace("-", "")) for _, s_ in rows)
+    names = [n for n, _ in rows]
+    args = []
+    for n, v in opts:
+        if v == "@list":
+            if n == "--reorder":
+                sel = list(names); rng.shuffle(sel)
+            else:
+                sel = [x for x in names if rng.random() < 0.5] or [names[0]]
+                if n == "--seq-r" and len(sel) == len(names): sel = sel[:-1] or None
+                if sel is None: return None
+                rng.shuffle(sel)
+            ops.append(op_file("list", rng.choice(["\n", " ", "\n\n", "\t"]).join(sel) + "\n")); v = "list"
+        elif v == "@len": v = str(max(1, rng.choice(lens)))
+        elif n == "--xambig":      # stay out of the known finding (every sequence removed aborts): at least one sequence must survive
+            v = str(max(int(v), min(sum(1 for c in s_ if c in deg) for _, s_ in rows)))
+        args += _opt_words(n, v)
+    if "--k-reorder" in on and "--seq-k" not in on:
+        sel = [x for x in names if rng.random() < 0.6] or [names[0]]; rng.shuffle(sel)
+        ops.append(op_file("list", "\n".join(sel) + "\n")); args += ["--seq-k", "list"]; on["--seq-k"] = "list"
+    if not abcflag: args.append(ABCFLAG[abc])
+    if "--informat" not in on: args += ["--informat", "stockholm"]
+    c = {"ops": ops + [op_run("esl-alimanip", args + ["in.sto"])], "on": list(on)}
+    if len(set(on) & ROWFILTERS) > 1 or set(on) & {"--rffract", "--detrunc", "--xambig"} or (abcflag and {"--dna": DNA, "--rna": "ACGU", "--amino": AMINO}[abcflag] != abc):
+        c.update(may_fail=True, nopred_ok=True)        # every sequence may be filtered out: the tool then stops with a message
+    if ("--outformat" in on and on["--outformat"] not in ("stockholm", "pfam") and set(on) & {"--num-rf", "--num-all", "--rm-gc"}) or \
+       (on.get("--rm-gc") == "RF" and "--num-rf" in on):
+        c.update(may_fail=True, nopred_ok=True)
+    return c
+
+
+ALIMANIP_SWEEP = Sweep("esl-alimanip",
+    values={"--seq-k": lambda r: "@list", "--seq-r": lambda r: "@list", "--reorder": lambda r: "@list", "--k-reorder": _flag,
+            "--lnfract": lambda r: r.choice(["0.5", "0.9", "1.0", "0.0"]), "--lxfract": lambda r: r.choice(["1.0", "1.2", "2.0", "3.0"]),
+            "--lmin": lambda r: "@len", "--lmax": lambda r: "@len", "--rffract": lambda r: r.choice(["0.0", "0.3", "0.5", "0.8"]),
+            "--detrunc": lambda r: r.choice(["1", "2", "5"]), "--xambig": lambda r: r.choice(["0", "1", "3", "10"]),
+            "--rm-gc": lambda r: r.choice(["RF", "SS_cons"]), "--num-rf": _flag, "--num-all": _flag,
+            "--outformat": lambda r: r.choice(["stockholm", "pfam", "afa", "clustal", "phylip", "selex"]), "--informat": lambda r: "stockholm",
+            "--dna": _flag, "--rna": _flag, "--amino": _flag},
+    skip={k: "clustering / insert / tree / trim / mask / structure options: search only (and ref_small for --small)" for k in
+          ("--small", "--seq-ins", "--seq-ni", "--seq-xi", "--trim", "--t-keeprf", "--minpp", "--tree", "--mask2rf", "--m-keeprf", "--sindi", "--cindi",
+           "--post2pp", "--xmask", "--cn-id", "--cs-id", "--cx-id", "--cn-ins", "--cs-ins", "--cx-ins", "--c-nmin", "--c-mx", "-M", "--M-rf", "--M-gapt")}
+         | {"-o": "output file (exercised for the other tools)"},
+    build=_alimanip_build, singles=3)
+
+SWEEPS += [ALIMANIP_SWEEP]
+
+def sweep_cases(ctx):
+    out = []
+    for sw in SWEEPS:
+        if sw.tool in ctx.c13_tables:
+            out += sweep_tool(ctx, sw)
+    out += reformat_grid_cases(ctx)
+    return out
+
+
 REF_GENERATORS = [("esl-reformat hmmpgmd", ref_hmmpgmd), ("esl-sfetch afa", ref_sfetch_afa), ("esl-alistat info", ref_alistat_info), ("small modes", ref_small), ("esl-afetch -f", ref_afetch_multi), ("esl-alimask", ref_alimask), ("esl-alimanip", ref_alimanip), ("easel index", ref_index), ("easel filter", ref_filter), ("esl-weight", ref_weight), ("esl-afetch", ref_afetch), ("roundtrip", ref_roundtrip), ("esl-alistat", ref_alistat), ("esl-translate", ref_translate), ("esl-sfetch", ref_sfetch), ("esl-seqstat", ref_seqstat), ("esl-alirev", ref_alirev), ("esl-alipid", ref_alipid),
                   ("esl-seqrange", ref_seqrange), ("esl-selectn", ref_selectn), ("esl-mask", ref_mask),
                   ("esl-reformat", ref_reformat), ("esl-shuffle", ref_shuffle), ("easel downsample", ref_downsample)]
@@ -1360,6 +1891,9 @@ def corpus_cases(ctx):
         {"name": "corpus-mixdchlet-h", "expect_ok": True, "ops": [op_run("esl-mixdchlet", ["-h"])]},
         {"name": "corpus-mixdchlet-noargs", "ops": [op_run("esl-mixdchlet", [])]},
         # esl-translate: a sequence shorter than a codon is skipped without esl_sq_Reuse(): it is glued in front of the next one
+        # esl-alimanip --xambig: every sequence removed -> ESL_EXCEPTION "No sequences selected" (known finding, fix proposed)
+        {"name": "corpus-alimanip-xambig-all", "known_key": "C13:esl-alimanip:exception:esl_msa.c:No_sequences_selected",
+         "ops": [op_file("in.sto", "# STOCKHOLM 1.0\n\ns1  ACGRT\ns2  AYGNT\n//\n"), op_run("esl-alimanip", ["--xambig", "0", "--dna", "in.sto"])]},
         {"name": "corpus-translate-short", "ref": True, "sticky": 1,
          "ops": [op_file("in.fa", ">a\nCC\n>b a desc\nATTG\n"), op_run("esl-translate", ["-l", "0", "-m", "--crick", "--informat", "fasta", "in.fa"])]},
     ]
@@ -1411,6 +1945,7 @@ def reference_cases(ctx):
     for tool, g in REF_GENERATORS:
         for i in range(max(10, per // 3) if tool in ("easel index", "esl-reformat hmmpgmd") else (2 * per if tool in ("esl-translate", "esl-sfetch") else per)):
             out.append(g(rng, i))
+    out += sweep_cases(ctx)
     return out
 
 
